@@ -69,6 +69,7 @@ func cmdVerify(args []string) {
 	dir := fs.String("dir", "/tmp/govc-smt", "SMT file directory")
 	frame := fs.Bool("fresh", false, "check writes go to fresh memory only")
 	verbose := fs.Bool("v", false, "print proved obligations too")
+	sweepMode := fs.Bool("sweep", false, "verify with the standing preconditions of the safety sweep")
 	kindinv := fs.Bool("kindinv", false, "assume the IR kind/payload invariant (as the C04/C16 checks do)")
 	fs.Parse(args)
 	t0 := time.Now()
@@ -93,7 +94,7 @@ func cmdVerify(args []string) {
 		if eng.fnByKey[k].Parent() != nil && eng.contracts.Funcs[k] == nil {
 			continue // closures without a contract are verified where they are expanded
 		}
-		res := eng.VerifyFunc(eng.fnByKey[k], VerifyOpts{FrameFresh: *frame})
+		res := eng.VerifyFunc(eng.fnByKey[k], VerifyOpts{FrameFresh: *frame, Sweep: *sweepMode})
 		if res.Unsupported != "" {
 			fmt.Printf("%-60s UNSUPPORTED %s\n", k, res.Unsupported)
 			continue
